@@ -39,7 +39,7 @@ func ToNumber(v Value) (int64, float64, NumberType) {
 		return 0, v.AsFloat(), IsFloat
 	case string:
 		s := v.AsString()
-		return StringToNumber(strings.TrimSpace(s))
+		return StringToNumber(s)
 	}
 	return 0, 0, NaN
 }
@@ -54,7 +54,7 @@ func ToNumberValue(v Value) (Value, NumberType) {
 		return v, IsFloat
 	}
 	if s, ok := v.TryString(); ok {
-		n, f, tp := StringToNumber(strings.TrimSpace(s))
+		n, f, tp := StringToNumber(s)
 		switch tp {
 		case IsInt:
 			return IntValue(n), IsInt
@@ -138,7 +138,9 @@ func stringToInt(s string) (int64, NumberType) {
 }
 
 func StringToNumber(s string) (n int64, f float64, tp NumberType) {
-	s = strings.TrimSpace(s)
+	// Only the ASCII white space characters may surround a numeral (this is
+	// not strings.TrimSpace, which knows about Unicode white space).
+	s = strings.Trim(s, " \f\n\r\t\v")
 	var err error
 	if len(s) == 0 {
 		tp = NaN
